@@ -10,7 +10,13 @@ package main
 // Token words: s:NAME symbol (s:&& and s:|| are the alternative spellings of and/or), d:NAME
 // dot-symbol, l:NAME `NAME:`, n:TEXT literal, o:TEXT other literal, `,` `;` `{}`, `[ … ]`,
 // `( … )`, `{ … }`. <spacing>: S = one space in every gap, else `g` followed by one digit per gap
-// between rendered pieces (0 none, 1 space, 2 newline); missing digits mean space.
+// between rendered pieces (0 none, 1 space, 2 newline, 3 tab, 4 two spaces, 5 CR LF); missing digits mean space.
+//
+//   expand ltoks <spacing> <tok>…           -> the token queue of a fresh lexer after the rendered text and a newline
+//                                              (typ:codes,… | st=<state> buf=<codes>, or … | !<error>)
+//   expand ltree <spacing> <tok>…           -> as tree; the driver's model column lexes and parses the text with the
+//                                              Lean models of lexer.go and parser.go, its spec column answers only for
+//                                              spacings that Spec/Spacing.lean calls legal
 
 import (
 	"fmt"
@@ -137,6 +143,12 @@ func xrender(pieces []string, spacing string) string {
 			case '0':
 			case '2':
 				b.WriteByte('\n')
+			case '3':
+				b.WriteByte('\t')
+			case '4':
+				b.WriteString("  ")
+			case '5':
+				b.WriteString("\r\n")
 			default:
 				b.WriteByte(' ')
 			}
@@ -343,6 +355,39 @@ func xexpand(src string) string {
 	return strings.Join(parts, " | ")
 }
 
+// xlex: the real lexer (fresh) on text; the token queue and what is left pending.
+func xlex(text string) string {
+	lx := sharedEnv().NewParser().VerifLexer()
+	lx.Reset()
+	field := func(full, key string) string {
+		i := strings.Index(full, " "+key+"=")
+		if i < 0 {
+			return "?"
+		}
+		rest := full[i+len(key)+2:]
+		if j := strings.IndexByte(rest, ' '); j >= 0 {
+			rest = rest[:j]
+		}
+		return rest
+	}
+	for _, c := range text {
+		if err := lx.VerifStep(c); err != nil {
+			return field(lx.VerifFull(), "toks") + " | !" + lexErrKind(err)
+		}
+	}
+	full := lx.VerifFull()
+	short := lx.VerifShort()
+	st := short
+	if i := strings.IndexByte(short, '.'); i >= 0 {
+		st = short[:i]
+	}
+	buf := "-"
+	if i := strings.IndexByte(short, ';'); i >= 0 {
+		buf = short[i+1:]
+	}
+	return field(full, "toks") + " | st=" + st + " buf=" + buf
+}
+
 // value of a program in a fresh interpreter with the fixed bindings; effects are observed
 // through the trace list that (tr x) appends to.
 const xprelude = `(def a 7) (def b 3) (def c 2) (def d 5) (def x 11) (def y 4) (def i 1) (def j 2) (def n 6) (def t true) (def f false)
@@ -399,7 +444,16 @@ func xexec(toks []string) string {
 		lines := zygo.VerifInfixOps(xsetup())
 		sort.Strings(lines)
 		return strings.Join(lines, " ")
-	case "tree", "val":
+	case "ltoks":
+		if len(toks) < 2 {
+			return "bad-op"
+		}
+		ts, _, ok := xparse(toks[2:], "")
+		if !ok {
+			return "bad-op"
+		}
+		return xlex(xrender(xpieces(ts, nil), toks[1]) + "\n")
+	case "tree", "val", "ltree":
 		if len(toks) < 2 {
 			return "bad-op"
 		}
@@ -423,7 +477,7 @@ func xexec(toks []string) string {
 			return "bad-op"
 		}
 		src := xrender(xpieces(ts, nil), toks[1])
-		if toks[0] == "tree" {
+		if toks[0] == "tree" || toks[0] == "ltree" {
 			return xexpand(src)
 		}
 		prefix, ok := decodeCodes(codes)
@@ -750,12 +804,227 @@ func xgen(g *Gen) {
 	g.Emit("tree g2 s:a o:'c'")
 	g.Emit("tree g0012 s:x s:+ o:'c' o:'d'")
 	g.Count("char-uint64-statement-start")
+	// 8b. nil, written (), starting a juxtaposed statement (proposed fix C06-02)
+	g.Emit("tree g1120 s:a s:= n:1 ( )")
+	g.Emit("tree g10 s:a ( )")
+	g.Emit("ltree g1120 s:a s:= n:1 ( )")
+	g.Emit("tree g1010 s:a s:= ( ) ; s:a")
+	g.Count("nil-statement-start")
+	xgenSpacing(g)
 	g.Emit("tree g10 s:a s:- n:1")
 	g.Emit("tree g1110 s:a s:* s:b s:- n:2")
 	g.Emit("tree g10 s:a s:- n:1.5")
 	g.Count("sign-lookback-probe")
 	g.Count("sign-lookback-probe")
 	g.Count("sign-lookback-probe")
+}
+
+// ---------------------------------------------------------------- lex_spacing streams
+//
+// The Lean side decides which spacings are legal (Spec/Spacing.legal); the generator only has to
+// produce many spacings, legal and illegal: every combination of empty/non-empty gaps for short
+// sequences, random gap kinds for longer ones, and the adjacencies the rules W D S B exclude.
+
+func (g *Gen) emitSpaced(kind string, ts []xtok, sp string, tag string) {
+	g.Emit("%s %s %s", kind, sp, xwords(ts))
+	g.Count(tag)
+}
+
+// every gap none/space: 2^(n-1) spacing strings for n pieces
+func allBinarySpacings(n int, f func(sp string)) {
+	gaps := n - 1
+	for m := 0; m < 1<<uint(gaps); m++ {
+		b := []byte{'g'}
+		for k := 0; k < gaps; k++ {
+			if m&(1<<uint(k)) != 0 {
+				b = append(b, '1')
+			} else {
+				b = append(b, '0')
+			}
+		}
+		f(string(b))
+	}
+}
+
+func randomSpacing(g *Gen, n int) string {
+	b := []byte{'g'}
+	for k := 0; k+1 < n; k++ {
+		switch r := g.Rng.Intn(20); {
+		case r < 9:
+			b = append(b, '0')
+		case r < 15:
+			b = append(b, '1')
+		case r < 16:
+			b = append(b, '2')
+		case r < 17:
+			b = append(b, '3')
+		case r < 19:
+			b = append(b, '4')
+		default:
+			b = append(b, '5')
+		}
+	}
+	return string(b)
+}
+
+var xlexOps = []string{"+", "-", "*", "/", "**", "==", "!=", "<", "<=", ">", ">=", "=", ":=", "+=", "-=", "++", "--", "&&", "||", "!", "->", "<-", "*=", "<!", ","}
+
+// operands for the token-level stream (floats and signed numerals included)
+func xlexOperand(g *Gen) []xtok {
+	switch g.Rng.Intn(14) {
+	case 0:
+		return []xtok{xn(strconv.Itoa(g.Rng.Intn(100)))}
+	case 1:
+		return []xtok{xn("-" + strconv.Itoa(1+g.Rng.Intn(99)))}
+	case 2:
+		return []xtok{xn([]string{"2.5", "-0.75", "1e+5", "2.5e-3", "-1e-2", "10.0e+1"}[g.Rng.Intn(6)])}
+	case 3:
+		return []xtok{{kind: 'd', text: []string{"h.k", "h.g.z", ".f", ".a.b"}[g.Rng.Intn(4)]}}
+	case 4:
+		return []xtok{xs("v"), {kind: '[', kids: []xtok{xs("i")}}}
+	case 5:
+		return []xtok{{kind: '(', kids: []xtok{xs("f"), xs("x"), xn("-2")}}}
+	case 6:
+		return []xtok{{kind: '{', kids: []xtok{xs("a"), xs("-"), xn("1")}}}
+	case 7:
+		return []xtok{xs([]string{"mod", "and", "or", "not", "e", "x1e", "E"}[g.Rng.Intn(7)])}
+	default:
+		return []xtok{xs(xoperands[g.Rng.Intn(len(xoperands))])}
+	}
+}
+
+// operands for the end-to-end stream: what the Pratt model prints the way the implementation does
+func xtreeOperand(g *Gen) []xtok {
+	switch g.Rng.Intn(12) {
+	case 0:
+		return []xtok{xn(strconv.Itoa(g.Rng.Intn(100)))}
+	case 1:
+		return []xtok{xn("-" + strconv.Itoa(1+g.Rng.Intn(99)))}
+	case 2:
+		return []xtok{{kind: 'd', text: []string{"h.k", "h.g.z", ".f"}[g.Rng.Intn(3)]}}
+	case 3:
+		return []xtok{xs("v"), {kind: '[', kids: []xtok{xs("i"), xs("+"), xn("1")}}}
+	case 4:
+		return []xtok{{kind: '(', kids: []xtok{xs("f"), xs("x"), xn("-2")}}}
+	case 5:
+		return []xtok{{kind: '{', kids: []xtok{xs("a"), xs("-"), xn("1")}}}
+	case 6:
+		return []xtok{xs("not"), xs("t")}
+	default:
+		return []xtok{xs(xoperands[g.Rng.Intn(len(xoperands))])}
+	}
+}
+
+func xgenSpacing(g *Gen) {
+	// 1. every operator pair of the infix table over plain operands, every none/space combination of
+	//    the four gaps: through the lexer alone and end to end
+	xenumOps(2, func(ops []string) {
+		ts := xseq(ops, zeros(3))
+		allBinarySpacings(len(xpieces(ts, nil)), func(sp string) {
+			g.emitSpaced("ltoks", ts, sp, "ltoks-pairs-all-binary-spacings")
+			g.emitSpaced("ltree", ts, sp, "ltree-pairs-all-binary-spacings")
+		})
+	})
+	// 2. every pair of operator texts of the lexer (the ones outside the infix table too) around
+	//    operands of several shapes, every none/space combination; numerals after the operator
+	for _, o1 := range xlexOps {
+		for _, o2 := range xlexOps {
+			for _, right := range []xtok{xs("b"), xn("1"), xn("-1"), xn("2.5e-3")} {
+				ts := []xtok{xs("a"), xopTok(o1), right, xopTok(o2), xn("7")}
+				allBinarySpacings(5, func(sp string) {
+					if !g.Thorough() && g.Rng.Intn(3) != 0 {
+						return
+					}
+					g.emitSpaced("ltoks", ts, sp, "ltoks-lexer-operators-numerals")
+				})
+			}
+		}
+	}
+	// 3. adjacent operators (prefix minus, not, deref) and brackets, every combination
+	for _, o1 := range xlexOps {
+		for _, o2 := range []string{"-", "+", "*", "!", "/", "not"} {
+			ts := []xtok{xs("a"), xopTok(o1), xs(o2), xs("b")}
+			allBinarySpacings(4, func(sp string) {
+				g.emitSpaced("ltoks", ts, sp, "ltoks-adjacent-operators")
+				if o2 == "-" || o2 == "*" || o2 == "not" {
+					g.emitSpaced("ltree", ts, sp, "ltree-adjacent-operators")
+				}
+			})
+		}
+	}
+	// 4. random sequences with random gap kinds (blank, tab, newline, CR LF, double)
+	nRand := 6000
+	if g.Thorough() {
+		nRand = 150000
+	}
+	for k := 0; k < nRand; k++ {
+		n := 1 + g.Rng.Intn(4)
+		var ts, tt []xtok
+		for i := 0; i <= n; i++ {
+			ts = append(ts, xlexOperand(g)...)
+			tt = append(tt, xtreeOperand(g)...)
+			if i < n {
+				ts = append(ts, xopTok(xlexOps[g.Rng.Intn(len(xlexOps))]))
+				tt = append(tt, xopTok(xbinOps[g.Rng.Intn(len(xbinOps))]))
+			}
+		}
+		g.emitSpaced("ltoks", ts, randomSpacing(g, len(xpieces(ts, nil))), "ltoks-random")
+		g.emitSpaced("ltree", tt, randomSpacing(g, len(xpieces(tt, nil))), "ltree-random")
+	}
+	// 5. structured blocks (statements, if/else, for, nested blocks) in random spacings: end to end
+	nBlk := 1500
+	if g.Thorough() {
+		nBlk = 40000
+	}
+	for k := 0; k < nBlk; k++ {
+		ts := g.xblock(1 + g.Rng.Intn(2))
+		g.emitSpaced("ltree", ts, randomSpacing(g, len(xpieces(ts, nil))), "ltree-structured-random-spacing")
+	}
+	// 6. the adjacencies the rules exclude, written explicitly (W two words, D digraphs and comment
+	//    openers, S sign after a word/closing bracket, B the sign look-back)
+	for _, op := range []string{"ltoks", "ltree"} {
+		g.Emit("%s g0 s:a s:b", op)
+		g.Emit("%s g0 s:a n:1", op)
+		g.Emit("%s g0 n:1 s:a", op)
+		g.Emit("%s g000 s:a s:+ s:+ s:b", op)
+		g.Emit("%s g000 s:a s:= s:= s:b", op)
+		g.Emit("%s g000 s:a s:< s:- s:b", op)
+		g.Emit("%s g000 s:a s:* s:* s:b", op)
+		g.Emit("%s g00 s:a s:< n:-1", op)
+		g.Emit("%s g00 s:a s:- n:-1", op)
+		g.Emit("%s g0 s:a n:-1", op)
+		g.Emit("%s g000 ( s:f ) n:-1", op)
+		g.Emit("%s g0000 s:v [ s:i ] n:-1", op)
+		g.Emit("%s g10 s:a s:- n:1", op)
+		g.Emit("%s g20 s:a s:- n:1", op)
+		g.Emit("%s g30 s:a s:- n:1", op)
+		g.Emit("%s g110 s:a s:- s:- n:1", op)
+		g.Emit("%s g010 s:a s:* s:- n:1", op)
+		g.Emit("%s g0010 ( s:- n:1 )", op)
+		g.Emit("%s g000 s:a s:/ s:/ s:b", op)
+		g.Emit("%s g000 s:a s:/ s:* s:b", op)
+		g.Emit("%s g000 s:a s:/ s:= s:b", op)
+		g.Emit("%s g00 s:x1e s:+ n:5", op)
+		g.Emit("%s g00 s:e s:- n:5", op)
+		g.Count("excluded-adjacency-probes")
+	}
+	// LexerMinusDot (repo fix C12-05): `-.` where a signed number may start
+	for _, op := range []string{"ltoks", "ltree"} {
+		g.Emit("%s g00 s:a s:- d:.f", op)
+		g.Emit("%s g10 s:a s:- d:.f", op)
+		g.Emit("%s g0100 s:x s:= s:- d:.f d:.g", op)
+		g.Emit("%s g000 ( s:- d:.f )", op)
+		g.Emit("%s g0010 s:a s:* s:- d:.k", op)
+	}
+	g.Emit("ltoks g0 s:- n:.5")
+	g.Emit("ltoks g10 s:a s:- n:.5")
+	g.Emit("ltoks g00 s:a s:- n:.5")
+	g.Emit("ltoks g01 s:a s:- n:.5")
+	g.Emit("ltoks g0 s:- d:.")
+	g.Count("minus-dot-probes")
+	g.Emit("ltoks g00 n:1e s:+ n:5")
+	g.Emit("ltoks g00 n:-1e s:+ n:5")
+	g.Emit("ltoks g00 n:2.5e s:- n:3")
 }
 
 func init() { channels["expand"] = &Channel{Gen: xgen, Exec: xexec} }
